@@ -8,7 +8,7 @@ for d in /verif/seeded/*/; do
   (cd $T && patch -p1 -s < $d/patch.diff)
   SNAP=$T/verif; mkdir -p $SNAP; rsync -a --exclude work --exclude evidence --exclude replays --exclude seeded --exclude benign --exclude .git /verif/ $SNAP/   # the machinery as it is now (immune to later edits)
   cd $SNAP
-  out=$(VERIF_SCRATCH=$T/v MQTT_SRC=$T/src ./check $prop --tier quick 2>&1); rc=$?
+  out=$(VERIF_SCRATCH=$T/v MQTT_SRC=$T/src ./check $prop --tier quick --seed ${SEED:-1} 2>&1); rc=$?
   cd /verif; rm -rf $T
-  echo "$n $prop rc=$rc $(echo "$out" | grep -m1 '^trace\|^record' | cut -c1-120)"
+  echo "$n $prop rc=$rc $(echo "$out" | grep -o '[0-9]* executions judged, [0-9]* accepted\|[0-9]* records judged ([0-9]* ok)' | head -1) | $(echo "$out" | grep -m1 '^trace\|^record\|^session' | cut -c1-100)"
 done
